@@ -76,6 +76,7 @@ type frame struct {
 	instr     ssa.Instruction
 	symCount  map[ssa.Instruction]int
 	closure   []Value
+	skipPhi   bool
 }
 
 type funcInfo struct {
@@ -178,6 +179,15 @@ type Worker struct {
 	harness      *ssa.Function
 	initMode     bool
 	panicWhere   string
+	pdoms        map[*ssa.Function]*pdomInfo
+	mergeFails   map[ssa.Instruction]int
+	regionDepth  int
+	RegionsMerged int
+	lazyNext     bool
+	LazyBranches int
+	pcH          [][2]uint64
+	feasCache    map[[3]uint64]bool
+	CacheHits    int
 }
 
 func (w *Worker) newObj(v Value, t types.Type, name string) *Object {
@@ -222,7 +232,23 @@ func (w *Worker) addPC(c *Term) {
 		return
 	}
 	w.pc = append(w.pc, c)
+	h := w.curHash()
+	h[0] = h[0]*1099511628211 + uint64(c.id) + 1
+	h[1] = (h[1]^uint64(c.id+7))*0x9E3779B97F4A7C15 + 0x7F4A7C15
+	w.pcH = append(w.pcH, h)
 	w.solver.Assert(c)
+}
+
+func (w *Worker) curHash() [2]uint64 {
+	if len(w.pcH) == 0 {
+		return [2]uint64{14695981039346656037, 0x1234567}
+	}
+	return w.pcH[len(w.pcH)-1]
+}
+
+func (w *Worker) truncPC(n int) {
+	w.pc = w.pc[:n]
+	w.pcH = w.pcH[:n]
 }
 
 // feasible: is pc ∧ c satisfiable? Unknown counts as feasible (and is recorded).
@@ -233,11 +259,19 @@ func (w *Worker) feasible(c *Term) bool {
 	if c.IsFalse() {
 		return false
 	}
+	h := w.curHash()
+	key := [3]uint64{h[0], h[1], uint64(c.id)}
+	if v, ok := w.feasCache[key]; ok {
+		w.CacheHits++
+		return v
+	}
 	r := w.solver.CheckWith(c)
 	if r == Unknown {
 		w.note("solver returned unknown on a feasibility query (kept as feasible)")
 		w.prog.sawUnknown = true
+		return true
 	}
+	w.feasCache[key] = r != Unsat
 	return r != Unsat
 }
 
@@ -260,6 +294,7 @@ func (w *Worker) branch(c *Term) bool {
 	}
 	d := w.dc
 	if d.pos < len(d.prefix) {
+		w.lazyNext = false
 		v := d.prefix[d.pos]
 		d.pos++
 		d.taken = append(d.taken, v)
@@ -272,6 +307,18 @@ func (w *Worker) branch(c *Term) bool {
 	}
 	d.pos++
 	nc := w.ctx.Not(c)
+	if w.lazyNext {
+		// inside a region merge: explore both sides without asking the solver;
+		// an infeasible side only contributes an ite-arm guarded by an
+		// unsatisfiable condition
+		w.lazyNext = false
+		w.LazyBranches++
+		alt := append(append([]int{}, d.taken...), 1)
+		*d.queue = append(*d.queue, alt)
+		d.taken = append(d.taken, 0)
+		w.addPC(c)
+		return true
+	}
 	ft := w.feasible(c)
 	if !ft {
 		d.taken = append(d.taken, 1)
@@ -958,53 +1005,60 @@ func (w *Worker) runFrame(fr *frame) {
 			fr.result = w.zeroResults(fr.fn.Signature)
 		}
 	}()
-	for {
-		b := fr.block
-		w.funcsTouched[fr.fn.String()] += int64(len(b.Instrs))
-		// parallel evaluation of leading phis
-		nphi := 0
-		for _, in := range b.Instrs {
-			if _, ok := in.(*ssa.Phi); !ok {
+	for fr.block != nil {
+		w.execBlock(fr)
+	}
+}
+
+// execBlock runs the current block of fr up to its terminator; on return
+// fr.block is the next block or nil after a Return.
+func (w *Worker) execBlock(fr *frame) {
+	b := fr.block
+	w.funcsTouched[fr.fn.String()] += int64(len(b.Instrs))
+	// parallel evaluation of leading phis
+	nphi := 0
+	for _, in := range b.Instrs {
+		if _, ok := in.(*ssa.Phi); !ok {
+			break
+		}
+		nphi++
+	}
+	if fr.skipPhi {
+		fr.skipPhi = false
+	} else if nphi > 0 {
+		var pi int = -1
+		for i, pred := range b.Preds {
+			if pred == fr.prev {
+				pi = i
 				break
 			}
-			nphi++
 		}
-		if nphi > 0 {
-			var pi int = -1
-			for i, pred := range b.Preds {
-				if pred == fr.prev {
-					pi = i
-					break
-				}
-			}
-			if pi < 0 {
-				w.unsupported("internal: phi without predecessor")
-			}
-			vals := make([]Value, nphi)
-			for i := 0; i < nphi; i++ {
-				vals[i] = w.get(fr, b.Instrs[i].(*ssa.Phi).Edges[pi])
-			}
-			for i := 0; i < nphi; i++ {
-				w.setv(fr, b.Instrs[i].(*ssa.Phi), vals[i])
-			}
+		if pi < 0 {
+			w.unsupported("internal: phi without predecessor")
 		}
-		for _, in := range b.Instrs[nphi:] {
-			fr.instr = in
-			w.steps++
-			if w.steps > w.maxSteps {
-				panic(pathAbort{abUnwind, fmt.Sprintf("step limit %d exceeded", w.maxSteps)})
-			}
-			switch w.visit(fr, in) {
-			case kReturn:
-				fr.block = nil
-				return
-			case kJump:
-				goto next
-			}
+		vals := make([]Value, nphi)
+		for i := 0; i < nphi; i++ {
+			vals[i] = w.get(fr, b.Instrs[i].(*ssa.Phi).Edges[pi])
 		}
-		w.unsupported("internal: fell off block")
-	next:
+		for i := 0; i < nphi; i++ {
+			w.setv(fr, b.Instrs[i].(*ssa.Phi), vals[i])
+		}
 	}
+	for _, in := range b.Instrs[nphi:] {
+		fr.instr = in
+		w.steps++
+		if w.steps > w.maxSteps {
+			panic(pathAbort{abUnwind, fmt.Sprintf("step limit %d exceeded", w.maxSteps)})
+		}
+		switch w.visit(fr, in) {
+		case kReturn:
+			fr.block = nil
+			return
+		case kJump:
+			return
+		}
+	}
+	w.unsupported("internal: fell off block")
 }
 
 func (w *Worker) runDefers(fr *frame) {
@@ -1124,7 +1178,18 @@ func (w *Worker) visit(fr *frame, in ssa.Instruction) cont {
 			if fr.symCount[x] > w.unwind {
 				panic(pathAbort{abUnwind, fmt.Sprintf("unwinding bound %d reached at %s", w.unwind, w.prog.fset.Position(x.Pos())) + w.where()})
 			}
+			if w.prog.regionMerge && !w.initMode {
+				if J := w.joinBlock(fr.fn, fr.block); J != nil {
+					if w.tryRegionMerge(fr, x, c, J) {
+						return kJump
+					}
+				}
+			}
+			if w.regionDepth > 0 && w.prog.lazyRegions && !isLoopHeader(fr.block) {
+				w.lazyNext = true
+			}
 			t = w.branch(c)
+			w.lazyNext = false
 		}
 		fr.prev = fr.block
 		if t {
@@ -1262,3 +1327,12 @@ func (w *Worker) sortedKeys(m map[string]int64) []string {
 }
 
 var debugTrace = os.Getenv("GOSYM_TRACE") != ""
+
+func isLoopHeader(b *ssa.BasicBlock) bool {
+	for _, p := range b.Preds {
+		if b.Dominates(p) {
+			return true
+		}
+	}
+	return false
+}
